@@ -78,6 +78,13 @@ def plan(tier, seed):
             for m in (False, True):
                 cases.append({"src": fn, "srcfmt": None, "explicit_in": False, "target": t, "link_out": store,
                               "opts": {"c": False, "m": m, "i": False, "o": False}})
+    # a file converted onto itself (the same path as input and output): the API calls rewrite it in IOData's own layout
+    for fn in ("water.xyz", "water_trajectory.xyz", "example.sdf", "caffeine.mol2", "water_single_model.pdb", "nh3_orca.molden", "h2o_sto3g.wfn"):
+        if os.path.exists(os.path.join(bootstrap.DATA_DIR, fn)):
+            for m in (False, True):
+                for io in (False, True):
+                    cases.append({"src": fn, "srcfmt": None, "explicit_in": False, "inplace": True, "target": "inplace",
+                                  "opts": {"c": False, "m": m, "i": io, "o": io}})
     # numerically pathological but syntactically valid inputs: the CLI's floating-point trapping may turn them into errors
     # (admitted), but never into a reported success with other content
     for name in sorted(pathological_sources()):
@@ -203,11 +210,22 @@ def run_case(case):
                 src, label = link, f"{case['link_src']} -> {case['src']}"
                 counters["symlink_cases"] = 1
         target = case["target"]
+        src_for = {"cli": src, "api": src, "cv": src}
+        if case.get("inplace"):
+            target = iodata.api._select_format_module(case["src"], "load_one", None).__name__.split(".")[-1]
+            srcfmt = target
         known_target = target in iodata.api.FORMAT_MODULES
         give_o = opts["o"] or target == "json_qcschema" or not known_target or not go.EXT.get(target)
         outname = go.filename(target, "out") if target in go.EXT else ("out.gro" if target == "gromacs" else "out.dat")
         if give_o and opts["o"]:
             outname = "out_no_hint.dat"
+        if case.get("inplace"):
+            outname = case["src"]
+            counters["inplace_cases"] = 1
+            for which in ("cli", "api", "cv"):
+                os.makedirs(os.path.join(root, which), exist_ok=True)
+                shutil.copy(src, os.path.join(root, which, outname))
+                src_for[which] = os.path.join(root, which, outname)
         infmt = srcfmt if (explicit_in or (opts["i"] and srcfmt)) else None
         outfmt = target if give_o else None
         args = []
@@ -231,18 +249,20 @@ def run_case(case):
                 os.makedirs(os.path.join(root, which), exist_ok=True)
                 os.symlink(os.path.join(root, which, "store", case["link_out"]), os.path.join(root, which, outname))
             label += f" (output link -> store/{case['link_out']})"
-        with open(out_cli, "wb") as fh:
-            fh.write(SENTINEL)
+        if not case.get("inplace"):
+            with open(out_cli, "wb") as fh:
+                fh.write(SENTINEL)
         env = dict(os.environ, PYTHONPATH=bootstrap.REPO, PYTHONHASHSEED="0")
-        r = subprocess.run([sys.executable, "-m", "iodata", src, out_cli, *args], capture_output=True, text=True, timeout=600, env=env, cwd=root)
+        r = subprocess.run([sys.executable, "-m", "iodata", src_for["cli"], out_cli, *args], capture_output=True, text=True, timeout=600, env=env, cwd=root)
         counters["cli_runs"] += 1
         cli_bytes = open(out_cli, "rb").read() if os.path.exists(out_cli) else None
         # (b) API
         out_api = os.path.join(root, "api", outname)
         os.makedirs(os.path.dirname(out_api), exist_ok=True)
-        with open(out_api, "wb") as fh:
-            fh.write(SENTINEL)
-        api_outcome, api_exc = api_run(src, infmt, out_api, outfmt, opts["m"], opts["c"])
+        if not case.get("inplace"):
+            with open(out_api, "wb") as fh:
+                fh.write(SENTINEL)
+        api_outcome, api_exc = api_run(src_for["api"], infmt, out_api, outfmt, opts["m"], opts["c"])
         counters["api_runs"] += 1
         api_bytes = open(out_api, "rb").read() if os.path.exists(out_api) else None
         # (c) convert()
@@ -251,7 +271,7 @@ def run_case(case):
         with warnings.catch_warnings():
             warnings.simplefilter("ignore")
             try:
-                convert(src, out_cv, opts["m"], infmt, outfmt, opts["c"])
+                convert(src_for["cv"], out_cv, opts["m"], infmt, outfmt, opts["c"])
                 cv_outcome = "ok"
             except Exception as exc:
                 cv_outcome = type(exc).__name__
@@ -288,10 +308,11 @@ def run_case(case):
                     viols.append(_v("cli-error-not-named", f"{tag}: stderr does not name the problem ({api_outcome}): {r.stderr[-200:]}"))
                 if api_outcome in ("PrepareDumpError", "FileFormatError") or (api_outcome in ("LoadError", "FileNotFoundError") and not opts["m"]):
                     # pre-flight rejection (nothing could be written): the existing output must be untouched
-                    if cli_bytes != SENTINEL:
+                    pre_bytes = open(src, "rb").read() if case.get("inplace") else SENTINEL
+                    if cli_bytes != pre_bytes:
                         viols.append(_v("cli-preflight-clobbers-output", f"{tag}: rejected with {api_outcome} before writing, but the existing "
                                         "output file was modified by the CLI"))
-                    if api_bytes != SENTINEL:
+                    if api_bytes != pre_bytes:
                         viols.append(_v("api-preflight-clobbers-output", f"{tag}: API rejected with {api_outcome} but modified the existing file"))
         if (cv_outcome == "ok") != (api_outcome == "ok") or (cv_outcome == "ok" and norm(cv_bytes, out_cv) != norm(api_bytes, out_api)):
             viols.append(_v("convert-function-differs", f"{tag}: convert() -> {cv_outcome}, API -> {api_outcome}, or different bytes"))
